@@ -1,6 +1,7 @@
 package bounded
 
 import (
+	"strings"
 	"encoding/json"
 	"fmt"
 	"testing"
@@ -48,6 +49,9 @@ func TestC11(t *testing.T) {
 		"SELECT id, AWAIT((SELECT v FROM k)) AS s FROM t",
 		"SELECT id, (SELECT v FROM k) AS s, * FROM t",
 		"SELECT id, ZZFAIL() AS f FROM t WHERE a > 0",
+		"SELECT id FROM t WHERE ZZFAIL() = a",
+		"SELECT id FROM t WHERE a < 10 AND ZZFAIL() >= 1",
+		"SELECT id FROM t WHERE a IN (1, ZZFAIL())",
 		"SELECT id, (SELECT v FROM k LIMIT 1) AS q, ZZFAIL() AS f FROM t",
 		"SELECT id FROM t WHERE EXISTS (SELECT v FROM k WHERE v > 1) AND ZZFAIL() = 1",
 		"WITH c AS (SELECT id, ZZFAIL() AS f FROM t) SELECT id FROM c",
@@ -86,7 +90,14 @@ func TestC11(t *testing.T) {
 				if err != nil || string(after) != string(before) {
 					class := "unclassified"
 					if failed {
-						class = "input-changed-after-a-failed-query"
+						// the recorded finding: a row-scoped subquery in the select list, or EXISTS, defers the removal of the
+						// navigation entry to post processing, which a failed query never reaches. A failed query WITHOUT
+						// such a subquery has no excuse: comparisons take the entry off on every way out.
+						class = "input-changed-after-a-failed-query-without-a-deferred-removal"
+						up := strings.ToUpper(qq)
+						if strings.Contains(up, "(SELECT") {
+							class = "input-changed-after-a-failed-query"
+						}
 					}
 					r.violateClass(class, "%q (wrapped=%v, failure at invocation %d, query failed=%v): input changed: marshal error %v; after = %.200s", qq, wrapped, k, failed, err, after)
 				}
